@@ -10,9 +10,10 @@ import PdfModel.Model.OffLex
      for _ in 0..N { next()?.to::<ObjNr>()?; next()?.to::<usize>()? ; offsets.push(offset) }
   ObjectStream::get_object_slice(index)                       getObjectSlice offsets first data index
      index >= offsets.len()            → Err(ObjStmOutOfBounds)          .err
-     first + offsets[index]            (usize `+`, overflow-checks on)   .panic on overflow
+     first.checked_add(offsets[index]) → Err(Invalid)                    .err on overflow
      self.inner.data(resolve)?                                           `data : Out Bytes`
-     end = data.len() for the last index, else first + offsets[index+1]  .panic on overflow
+     end = data.len() for the last index, else first.checked_add(offsets[index+1])   .err on overflow
+     (before the `fix:` commit both were plain `+`: a panic with overflow checks; `addOld`)
   data.get(range).ok_or_else(..)  (resolve_ref)               memberSlice data (start, stop)
   the three steps in the order of resolve_ref                 member n first data index
 -/
@@ -48,7 +49,7 @@ def getObjectSlice (offsets : List Nat) (first : Nat) (data : Out Bytes) (index 
     | none => .panic
     | some o =>
       let start := first + o
-      if start > usizeMax then .panic
+      if start > usizeMax then .err
       else
         match data with
         | .ok d =>
@@ -58,8 +59,11 @@ def getObjectSlice (offsets : List Nat) (first : Nat) (data : Out Bytes) (index 
             | none => .panic
             | some o2 =>
               let stop := first + o2
-              if stop > usizeMax then .panic else .ok (d, start, stop)
+              if stop > usizeMax then .err else .ok (d, start, stop)
         | .err => .err | .panic => .panic | .oof => .oof
+
+/-- the unchecked `first + offset` of the tree before the repair -/
+def addOld (first off : Nat) : Out Nat := if first + off > usizeMax then .panic else .ok (first + off)
 
 /-- `data.get(start..stop)`: `None` (an error in `resolve_ref`) unless `start ≤ stop ≤ data.len()`. -/
 def memberSlice (d : Bytes) (start stop : Nat) : Out Bytes :=
